@@ -135,6 +135,8 @@ def gen_struct(rng, idx, allow_nested=True):
                                '#[difference(map_equality = "key_only", collection_strategy = "unordered_map_like")]']) + '\n    '
             checks.append(f"        if r.{acc} != b.{acc} {{ return Err(format!(\"map field {fname}: {{:?}} != {{:?}}\", r.{acc}, b.{acc})); }}")
             feats.append('map'); all_skipped = False
+        if rng.random() < 0.15 and '"' in attr:        # a string literal may be a raw string: r"..", r#".."#
+            attr = re.sub(r'"([A-Za-z0-9_ ]*)"', lambda m: rng.choice(['r"%s"', 'r#"%s"#']) % m.group(1), attr); feats.append('raw_string_attribute_value')
         attr2 = stack_attr(rng, attr)
         if attr2 != attr: attr = attr2; feats.append('stacked_difference_attributes')
         vis = rng.choice(['', 'pub ', 'pub(crate) ', 'pub ', 'pub(in crate) ', 'pub(self) ', 'pub(super) '])
@@ -339,6 +341,8 @@ KNOWN_BAD = {
          "#[derive(Debug, Clone, PartialEq, Difference)]\npub enum D { Diff, Patch(u8), DiffRef { x: u8 } }\n"),
  'D25': ("an array length (or const-parameter default) written as an integer literal with a type suffix, a radix prefix or `_` separators ([u8; 4usize], [u8; 0x10], [u8; 1_0], const N: usize = 0x2): the parser reads plain decimal only and then drops the length",
          "#[derive(Debug, Clone, PartialEq, Difference)]\npub struct D<const N: usize = 0x2> { pub a: [u8; 4usize], pub b: [u8; 0x10], pub c: Option<[i64; 1_0]>, pub d: [u8; N], pub e: [bool; 0b11], pub n: u8 }\n"),
+ 'D26': ("an attribute value written as a raw string literal (expose = r#\"Name\"#, setter_name = r\"put\"): the quotes of a raw string were not taken off",
+         "#[derive(Debug, Clone, PartialEq, Difference)]\n#[difference(expose = r#\"DDelta\"#)]\npub struct D { #[difference(collection_strategy = r\"unordered_array_like\", setter_name = r\"put_v\")] pub v: Vec<u8>, pub n: u8 }\n"),
  'D7': ("trailing comma inside a difference attribute", "#[derive(Debug, Clone, PartialEq, Difference)]\npub struct D { #[difference(skip,)] pub f0: i64, pub f1: i64 }\n"),
  'D8': ("generic parameter used only behind a reference inside another type", "#[derive(Debug, Clone, PartialEq, Difference)]\npub struct D<'a, T> { pub o: Option<&'a T> }\n"),
  'D8b': ("generic parameter used only as the head of an associated-type path (same cause as D8: the used-parameter test compares the parameter's name with whole base strings)",
@@ -382,12 +386,12 @@ def gen_parse_type(rng, depth):
 # during macro expansion, before name resolution); `ok` = inside what the macro documents as supported, where a parser panic is a failure
 ATTR_OK = ['#[difference(skip)]', '#[difference(skip,)]', '#[difference( recurse )]', '#[difference(recurse, setter)]', '#[difference()]',
            '#[difference(collection_strategy = "ordered_array_like")]', '#[difference(collection_strategy="unordered_array_like",)]',
-           '#[difference(map_equality = "key_only", collection_strategy = "unordered_map_like")]', '#[difference(setter_name = "a b")]',
+           '#[difference(map_equality = "key_only", collection_strategy = "unordered_map_like")]', '#[difference(setter_name = "a b")]', '#[difference(setter_name = r"raw", collection_strategy = r#"ordered_array_like"#)]',
            '#[difference(skip_setter)]', '#[difference(setter)]\n#[difference(skip)]', '#[difference{skip}]',
            '#[doc = "some text"]', '/// a doc comment', '/** block */', '#[allow(dead_code)]', '#[cfg_attr(all(), allow(unused))]', '#[doc(hidden)]', '#[rustfmt::skip]']
 ATTR_ODD = ['#[difference(a = "x" b, c)]', '#[difference(a b)]', '#[difference(a = 1)]', '#[difference(x = "1"; y)]', '#[difference]', '#[difference = "x"]',
             '#[difference(,)]', '#[difference(a,,b)]', '#[difference(a = "x" = "y")]', '#[difference("lit")]', '#[difference(a = b)]', '#[difference(a; "v", b)]']
-STRUCT_ATTR_OK = ['#[difference(setters)]', '#[difference(expose)]', '#[difference(expose = "Renamed")]', '#[difference(setters, expose)]', '#[doc = "s"]', '#[allow(unused)]', '/// doc']
+STRUCT_ATTR_OK = ['#[difference(setters)]', '#[difference(expose)]', '#[difference(expose = "Renamed")]', '#[difference(expose = r#"RawRenamed"#)]', '#[difference(setters, expose)]', '#[doc = "s"]', '#[allow(unused)]', '/// doc']
 BOUNDS = ['Clone', 'Default', 'std::fmt::Debug', 'Into<u8>', 'PartialEq<u8>', 'Send', 'core::marker::Sync']
 
 def gen_item(rng, i):
